@@ -546,3 +546,247 @@ def rule_execflow(P) -> RuleResult:
         if good:
             res.ok({'statement': 'parsed tree' if parsed else 'text', 'paths': n, 'compiler_receives': '(context, statement, parameters as given)'})
     return res
+
+
+# ----------------------------------------------------------------------
+# R-CONNECTION (C10, C20): what a connection is made of and what its methods hand on
+
+def rule_connection(P) -> RuleResult:
+    """Connection on terms.  __init__ gives every connection its own table registry (holding the null table under ''), option
+    dictionary and error list - new objects, not shared defaults - and attaches the dsn when one is given, with the keyword
+    arguments of the call; attach() picks the source module named by the scheme of that very dsn and hands it (connection, dsn,
+    **kwargs); parse / compile hand the statement to the parser resp. to the compiler together with this connection; close() changes
+    nothing (the DB-API requires the method, the tables stay usable for cursors that are still open)."""
+    res = RuleResult('R-CONNECTION')
+    res.exhaustive = True
+    m = P.module('beanquery')
+    conn = m.classes.get('Connection')
+    if conn is None:
+        raise AnalysisError('anchor vanished: beanquery.Connection')
+    need = {k: conn.methods.get(k) for k in ('__init__', 'attach', 'parse', 'compile', 'close')}
+    if any(v is None for v in need.values()):
+        raise AnalysisError(f'anchor vanished: Connection.{[k for k, v in need.items() if v is None][0]}')
+    CONN, DSN, KW, Q = Sym('CONNECTION'), Sym('DSN'), Sym('KEYWORDS'), Sym('STATEMENT')
+    init = need['__init__']
+    kwname = init.node.args.kwarg.arg if init.node.args.kwarg else None
+    for with_dsn in (True, False):
+        def on_call(fn, fv, rc, a, k, ex, nd):
+            f = str(fn)
+            if f.split('.')[-1] == 'attach' and rc == CONN:
+                ex.events.append(('x-attach', tuple(a), tuple(k)))
+                return None
+            if f.split('.')[-1] == 'NullTable':
+                return T('new', ('NullTable', tuple(a)))
+            return NotImplemented
+        env = {'self': CONN, init.params[1]: DSN if with_dsn else None}
+        for extra in init.params[2:]:
+            env[extra] = Sym(f'DEFAULT_OBJECT_OF_PARAMETER_{extra}')      # one object for all calls: not something a connection owns
+        if kwname:
+            env[kwname] = KW
+        good = True
+        n = 0
+        for p in Engine(P, on_call=on_call, max_depth=2).paths(init, env):
+            n += 1
+            label = 'with a dsn' if with_dsn else 'without a dsn'
+            tb, op, er = (p.heap.get(_cattr(CONN, a)) for a in ('tables', 'options', 'errors'))
+            fresh = isinstance(tb, SList) and tb.kind == 'dict' and isinstance(op, SList) and op.kind == 'dict' and not op.items and \
+                isinstance(er, SList) and er.kind == 'list' and not er.items
+            if not fresh or p.decisions and any(not (isinstance(t, T) and t.op == 'cmp') for t, _ in p.decisions):
+                good = False
+                res.fail(init.fq, 'connection:state', f'{label}: a connection starts with a table registry, an option dictionary and an error '
+                         f'list of its own (new objects made in __init__); found tables=`{show(tb)[:50]}`, options=`{show(op)[:30]}`, '
+                         f'errors=`{show(er)[:30]}`', loc(init))
+                continue
+            if [k_ for k_, _ in tb.items] != [''] or tb.items[0][1] != T('new', ('NullTable', ())):
+                good = False
+                res.fail(init.fq, 'connection:nulltable', f"{label}: the registry starts with exactly the null table under the name ''; found "
+                         f'`{show(tb)[:80]}`', loc(init))
+                continue
+            at = [e for e in p.events if e[0] == 'x-attach']
+            if with_dsn and (len(at) != 1 or at[0][1] != (DSN,) or (kwname and (None, KW) not in at[0][2] and ('**', KW) not in at[0][2] and KW not in [v for _, v in at[0][2]])):
+                good = False
+                res.fail(init.fq, 'connection:attach', f'{label}: __init__ must attach that dsn once, with the keyword arguments it was given; '
+                         f'it calls attach {[(tuple(map(show, a_)), tuple((k_, show(v_)) for k_, v_ in k2)) for _, a_, k2 in at]}', loc(init))
+            elif not with_dsn and at:
+                good = False
+                res.fail(init.fq, 'connection:attach', f'{label}: nothing is attached', loc(init))
+        if n == 0:
+            raise AnalysisError(f'{init.fq}: no path on terms')
+        if good:
+            res.ok({'method': '__init__', 'dsn': with_dsn, 'state': 'own tables {"": NullTable()}, options {}, errors []',
+                    'attach': 'once, (dsn, **kwargs)' if with_dsn else 'not called'})
+    # attach
+    at = need['attach']
+    akw = at.node.args.kwarg.arg if at.node.args.kwarg else None
+    MOD = Sym('SOURCE_MODULE')
+    def on_call_a(fn, fv, rc, a, k, ex, nd):
+        f = str(fn)
+        if f.endswith('import_module'):
+            ex.events.append(('x-import', tuple(a)))
+            return MOD
+        if rc == MOD and f.split('.')[-1] == 'attach':
+            ex.events.append(('x-attach', tuple(a), tuple(k)))
+            return None
+        return NotImplemented
+    env = {'self': CONN, at.params[1]: DSN}
+    if akw:
+        env[akw] = KW
+    scheme = T('attr', (T('call', ('urlparse', (DSN,), ())), 'scheme'))
+    want_mods = (T('fstr', ('beanquery.sources.', scheme)), T('bin', ('+', 'beanquery.sources.', scheme)))
+    n = 0
+    good = True
+    for p in Engine(P, on_call=on_call_a, max_depth=2).paths(at, env):
+        if p.outcome == 'raise':
+            continue
+        n += 1
+        imp = [e[1] for e in p.events if e[0] == 'x-import']
+        att = [e for e in p.events if e[0] == 'x-attach']
+        cond = f' when {" and ".join(show(t)[:40] + " is " + str(o) for t, o in p.decisions)}' if p.decisions else ''
+        if len(imp) != 1 or len(imp[0]) != 1 or imp[0][0] not in want_mods:
+            good = False
+            res.fail(at.fq, 'connection:source', f'attach(dsn) must load the source module `beanquery.sources.<scheme of that dsn>`; it imports '
+                     f'`{", ".join(show(x)[:80] for a_ in imp for x in a_) or "nothing"}`{cond}', loc(at))
+            break
+        if len(att) != 1 or att[0][1] != (CONN, DSN) or (akw and KW not in [v for _, v in att[0][2]]):
+            good = False
+            res.fail(at.fq, 'connection:source', f"attach(dsn, **kwargs) must call the source module's attach(connection, dsn, **kwargs); it calls "
+                     f'`{[(tuple(map(show, e[1])), tuple((k_, show(v_)) for k_, v_ in e[2])) for e in att]}`{cond}'[:500], loc(at))
+            break
+    if n == 0:
+        raise AnalysisError(f'{at.fq}: no path on terms')
+    if good:
+        res.ok({'method': 'attach', 'source': 'beanquery.sources.<scheme of the dsn>', 'hands_on': '(connection, dsn, **kwargs)'})
+    # parse / compile
+    for meth, callee, want in (('parse', 'parser.parse', (Q,)), ('compile', 'compiler.compile', (CONN, Q))):
+        f = need[meth]
+        got = []
+
+        def on_call_p(fn, fv, rc, a, k, ex, nd, _c=callee):
+            if str(fn).endswith(_c) or str(fn).split('.')[-1] == _c.split('.')[-1]:
+                got.append((tuple(a), tuple(k)))
+                return T('call', (_c, tuple(a), tuple(k)))
+            return NotImplemented
+        bad = False
+        for p in Engine(P, on_call=on_call_p, max_depth=0).paths(f, {'self': CONN, f.params[1]: Q}):
+            if p.outcome != 'return' or p.decisions or len(got) != 1 or got[0] != (want, ()) or p.value != T('call', (callee, want, ())):
+                bad = True
+        if bad or not got:
+            res.fail(f.fq, f'connection:{meth}', f'Connection.{meth}(statement) is {callee}({", ".join(map(show, want))}); found '
+                     f'{[tuple(map(show, a)) for a, _ in got]}', loc(f))
+        else:
+            res.ok({'method': meth, 'is': f'{callee}({", ".join(map(show, want))})'})
+    # close
+    cl = need['close']
+    changed = False
+    for p in Engine(P, max_depth=0).paths(cl, {'self': CONN}):
+        if p.heap or [e for e in p.events if e[0] in ('call', 'store', 'mutate', 'delete')] or p.outcome == 'raise':
+            changed = True
+            what = [str(e[1])[:40] for e in p.events if e[0] in ('call', 'store', 'mutate', 'delete')] + [show(k) for k in p.heap]
+            res.fail(cl.fq, 'connection:close', f'close() must leave the connection as it is (cursors that are still open keep reading its '
+                     f'tables); it does {what[:3]}', loc(cl))
+            break
+    if not changed:
+        res.ok({'method': 'close', 'effect': 'none'})
+    return res
+
+
+def _cattr(base, name):
+    return T('attr', (base, name))
+
+
+# ----------------------------------------------------------------------
+# R-COLUMNEQ (C10): two description entries are equal exactly when name and type agree
+
+def rule_columneq(P) -> RuleResult:
+    from ..symex import gname as gname_
+    """Column.__eq__ on terms.  Against another Column the answer is a comparison of this entry's name and type with the *other*
+    entry's name and type (directly, or through the 7-field tuples, which hold both); against a tuple it is (name, datatype) == tuple;
+    anything else is left to the other operand (NotImplemented)."""
+    res = RuleResult('R-COLUMNEQ')
+    res.exhaustive = True
+    col = P.cls(CU, 'Column')
+    eq = col.methods.get('__eq__')
+    if eq is None:
+        raise AnalysisError('anchor vanished: Column.__eq__')
+    A_, B_ = Sym('THIS_COLUMN'), Sym('OTHER')
+    NAME = {'_name': 'name', 'name': 'name', '_type': 'type', 'datatype': 'type', 'type_code': 'type'}
+
+    def fields(t, who):
+        """-> set of 'name' / 'type' the term reads from `who` (the 7-tuple reads both), or None when it reads something else."""
+        out = set()
+        ok = True
+
+        def walk(x):
+            nonlocal ok
+            if isinstance(x, T) and x.op == 'attr' and x.args[0] == who and x.args[1] in NAME:
+                out.add(NAME[x.args[1]])
+            elif isinstance(x, T) and x.op == 'call' and x.args[0] in ('tuple', 'list') and tuple(x.args[1]) == (who,):
+                out.update(('name', 'type'))
+            elif isinstance(x, T) and x.op == 'call' and x.args[0] == 'hash' and len(x.args[1]) == 1:
+                walk(x.args[1][0])
+            elif isinstance(x, T) and x.op == 'tuple':
+                for y in x.args:
+                    walk(y)
+            elif isinstance(x, SList) and not x.opaque_tail:
+                for y in x.items:
+                    walk(y)
+            else:
+                ok = False
+        walk(t)
+        return out if ok else None
+    for kind in ('column', 'tuple', 'other'):
+        def on_isinstance(v, c, e, _k=kind):
+            if v == B_:
+                names = [gname_(x) for x in (c.args if isinstance(c, T) and c.op == 'tuple' else [c])]
+                is_col = any('type(' in n or n.split('.')[-1] == 'Column' for n in names)
+                is_tup = any(n.split('.')[-1] == 'tuple' for n in names)
+                return (_k == 'column' and is_col) or (_k == 'tuple' and is_tup)
+            return NotImplemented
+        n = 0
+        for p in Engine(P, on_isinstance=on_isinstance).paths(eq, {'self': A_, eq.params[1]: B_}):
+            n += 1
+            if p.outcome != 'return':
+                res.fail(eq.fq, 'columneq:raise', f'comparing a description entry with {kind} raises {p.value[0]}', loc(eq))
+                continue
+            v = p.value
+            if kind == 'other':
+                if gname_(v).split('.')[-1] == 'NotImplemented':
+                    res.ok({'compared_with': 'anything else', 'answer': 'NotImplemented'})
+                else:
+                    res.fail(eq.fq, 'columneq:other', f'compared with an object that is neither a Column nor a tuple the answer is '
+                             f'NotImplemented (the other operand decides); found `{show(v)[:60]}`', loc(eq))
+                continue
+            # all equalities that had to hold on this path, plus the one returned
+            cmps = [t for t, o in p.decisions if o and isinstance(t, T) and t.op == 'cmp' and t.args[0] == '=='] + \
+                ([v] if isinstance(v, T) and v.op == 'cmp' and v.args[0] == '==' else [])
+            false_branch = any(not o for t, o in p.decisions if isinstance(t, T) and t.op == 'cmp' and t.args[0] == '==')
+            if false_branch and v is False:
+                continue        # one of the equalities failed: unequal
+            covered = set()
+            bad = None
+            for c in cmps:
+                l, r = c.args[1], c.args[2]
+                if kind == 'column':
+                    fl, fr = fields(l, A_), fields(r, B_)
+                    if fl is None or fr is None:
+                        fl, fr = fields(r, A_), fields(l, B_)
+                    if fl is None or fr is None or fl != fr:
+                        bad = c
+                        break
+                    covered |= fl
+                else:
+                    fl = fields(l, A_) if r == B_ else fields(r, A_) if l == B_ else None
+                    if fl is None:
+                        bad = c
+                        break
+                    covered |= fl
+            if bad is not None or covered != {'name', 'type'} or (v is not True and not (isinstance(v, T) and v.op == 'cmp')):
+                res.fail(eq.fq, f'columneq:{kind}', f'compared with {"another description entry" if kind == "column" else "a (name, datatype) tuple"} '
+                         f'the answer is whether name and type of this entry equal those of the other; the comparison made is '
+                         f'`{" and ".join(show(c)[:70] for c in cmps) or show(v)[:60]}`, which covers {sorted(covered) or "nothing"}'
+                         + (f' and compares `{show(bad)[:70]}`' if bad is not None else ''), loc(eq))
+            else:
+                res.ok({'compared_with': kind, 'compares': 'name and type of both'})
+        if n == 0:
+            raise AnalysisError(f'{eq.fq}: no path on terms')
+    return res
